@@ -191,6 +191,9 @@ func (e *Engine) verifyUnit(name string) (err error) {
 	// the zero-annotation safety sweep is claimed for the peer-reachable functions (C10's units) and for functions
 	// whose contract opts in with `safety`; elsewhere only the annotated obligations are generated
 	e.safetyOn = e.curProp == "ALL" || (e.curProp == "C10" && e.c10units[name]) || (ct != nil && ct.Safety && !e.c10units[name])
+	if ct != nil && ct.NoSafety {
+		e.safetyOn = false
+	}
 	st := e.newState()
 	var args []Val
 	for i, p := range fn.Params {
@@ -580,7 +583,7 @@ func main() {
 	}
 	if *flagUnit == "" {
 		for _, r := range e.spec.Globals {
-			if r.Action == "assert" && r.Fired == 0 && e.wantTags(r.Cl.Tags) && len(r.Cl.Tags) > 0 {
+			if r.Action == "assert" && r.Fired == 0 && !r.Optional && e.wantTags(r.Cl.Tags) && len(r.Cl.Tags) > 0 {
 				missing = append(missing, fmt.Sprintf("contract-target-missing: global rule `%s %s` (%s) matches no site in the units of %s", r.Sel, r.Pat, r.Cl.Label, prop))
 			}
 		}
